@@ -254,7 +254,10 @@ class Runner:
             try:
                 mgr = self.mgr or manager.Manager(s, self.dh, timeout=30)
                 mgr.async_mode = True
-                r = mgr.rpc(new_ele('q%d' % n))
+                q = new_ele('q%d' % n)
+                if n % 3:
+                    q.text = 'ü€😀 ' * (n % 3) + 'é'         # multi-byte characters: short writes and chunk sizes count OCTETS
+                r = mgr.rpc(q)
                 self.rpcs.append(r)
                 self.req_status.append('sent')
             except Exception as e:
